@@ -2,11 +2,15 @@
 from __future__ import annotations
 
 import ast
+import importlib
+import importlib.abc
+import importlib.machinery
 import inspect
 import re
 import itertools
 import sys
 import types
+import zlib
 from typing import Any, Dict, List, Optional, Tuple
 
 from vf import core
@@ -22,7 +26,7 @@ RULE = ('part X: every hierarchy of n<=N classes in definition order where class
 ASSUME = ['CPython 3.12 type() is the reference for linearisation; inspect.getdoc for inherited docstrings',
           'classes whose creation CPython refuses for a reason propagated from an earlier refused class are not judged']
 DECIDING = {'project_classes_judged': 2000, 'classes_judged': 3000, 'inconsistent_judged': 50, 'find_compared': 3000, 'doc_compared': 1000,
-            'tables_compared': 100, 'overrides_compared': 100, 'rendered_doc_compared': 1000, 'reexported_classes': 100}
+            'tables_compared': 100, 'overrides_compared': 100, 'rendered_doc_compared': 1000, 'page_tables_compared': 500, 'reexported_classes': 100}
 CPU_S = 900
 
 MEMBERS = ['m0', 'm1', 'v0']
@@ -68,6 +72,8 @@ def cases(tier: str, seed: int) -> List[Dict[str, Any]]:
         out.append({'part': 'R', 'seed': seed, 'k': k, 'n': 20})
     for k in range(0, nrand // 2, 20):
         out.append({'part': 'RE', 'seed': seed, 'k': k, 'n': 20})
+    for k in range(0, nrand // 2, 20):
+        out.append({'part': 'RC', 'seed': seed, 'k': k, 'n': 20})
     # part G: whole projects (re-exports that move classes, import cycles, duplicates, several processing orders) and real packages;
     # the reference linearises the hierarchy pydoctor itself resolved, with CPython's type()
     ng = 200 if tier == 'quick' else 4000
@@ -83,6 +89,17 @@ def cases(tier: str, seed: int) -> List[Dict[str, Any]]:
 def worker_init() -> None:
     from vf.mon import msgs
     msgs.install()
+
+
+_LOOKUP: List[Any] = []
+
+
+def _lookup() -> Any:
+    if not _LOOKUP:
+        from pydoctor.templatewriter import TemplateLookup
+        import importlib.resources as ir
+        _LOOKUP.append(TemplateLookup(ir.files('pydoctor.themes') / 'base'))
+    return _LOOKUP[0]
 
 
 # ------------------------------------------------------------------------------------------------
@@ -128,11 +145,11 @@ def _gen_exhaustive(n: int, idx: int) -> Dict[str, str]:
     return {f'x{n}_{idx}': src}
 
 
-def _gen_random(seed: int, k: int) -> Dict[str, str]:
-    r = core.rng('C05', 'R', seed, k)
-    nmod = r.randint(2, 4)
-    ncls = r.randint(6, 14)
-    tag = f'r{seed}_{k}_'
+def _gen_random(seed: int, k: int, cyclic: bool = False) -> Dict[str, str]:
+    r = core.rng('C05', 'R', seed, k, cyclic)
+    nmod = r.randint(2, 4) if not cyclic else r.randint(2, 3)
+    ncls = r.randint(6, 14) if not cyclic else r.randint(4, 9)
+    tag = f'r{seed}_{k}_' if not cyclic else f'c{seed}_{k}_'
     mods: List[List[str]] = [[] for _ in range(nmod)]
     where: Dict[str, int] = {}
     generic: set = set()
@@ -141,7 +158,9 @@ def _gen_random(seed: int, k: int) -> Dict[str, str]:
     uses_typing = [False] * nmod
     # classes are created in a global order; class i lives in a module >= the modules of its bases
     # (modules import only from earlier modules: acyclic)
-    modof = sorted(r.randrange(nmod) for _ in range(ncls))
+    # cyclic: any module for any class, imports written just before the class that needs them: the modules import each other, and
+    # whether Python can execute them depends on where it enters (decided by executing them)
+    modof = sorted(r.randrange(nmod) for _ in range(ncls)) if not cyclic else [r.randrange(nmod) for _ in range(ncls)]
     names = [f'K{i}' for i in range(ncls)]
     for i, name in enumerate(names):
         m = modof[i]
@@ -226,47 +245,66 @@ def _gen_reexport(seed: int, k: int) -> Tuple[Dict[str, str], Dict[str, str]]:
 # ------------------------------------------------------------------------------------------------
 # CPython side
 
-def _cpython(mods: Dict[str, str]) -> Tuple[Dict[str, Any], Dict[str, str]]:
-    """Execute each module statement by statement. Returns ({'mod.Class': class}, {'mod.Class': error})."""
+class _Loader(importlib.abc.MetaPathFinder, importlib.abc.Loader):
+    """the generated modules, imported by the real import system (so that modules importing each other see each other half-executed,
+    as they would from files), each executed statement by statement so that one refused statement does not hide the rest"""
+
+    def __init__(self, mods: Dict[str, str], classes: Dict[str, Any], failed: Dict[str, str]) -> None:
+        self.mods, self.classes, self.failed = mods, classes, failed
+
+    def find_spec(self, name: str, path: Any = None, target: Any = None) -> Any:
+        if name in self.mods:
+            return importlib.machinery.ModuleSpec(name, self)
+        return None
+
+    def create_module(self, spec: Any) -> Any:
+        return None
+
+    def exec_module(self, mod: Any) -> None:
+        modname = mod.__name__
+        for st in ast.parse(self.mods[modname]).body:
+            code = compile(ast.Module([st], []), modname, 'exec')
+            try:
+                exec(code, mod.__dict__)
+            except Exception as e:  # noqa: BLE001
+                if isinstance(st, ast.ClassDef):
+                    self.failed[f'{modname}.{st.name}'] = f'{type(e).__name__}: {e}'
+                else:
+                    # an import of a class CPython refused to create (or of a name a half-executed module does not have yet): from
+                    # here on the names of this module are not bound as written (a rebinding import may leave an older binding in place)
+                    self.failed.setdefault(f'{modname}.<import-failed>', str(st.lineno))
+                continue
+            if isinstance(st, ast.ClassDef):
+                self.classes[f'{modname}.{st.name}'] = mod.__dict__[st.name]
+
+
+def _cpython(mods: Dict[str, str], entry: Optional[List[str]] = None) -> Tuple[Dict[str, Any], Dict[str, str]]:
+    """Import the modules (in the order `entry`, default: as given). Returns ({'mod.Class': class}, {'mod.Class': error})."""
     classes: Dict[str, Any] = {}
     failed: Dict[str, str] = {}
-    created = []
+    loader = _Loader(mods, classes, failed)
+    sys.meta_path.insert(0, loader)
     try:
-        for modname, src in mods.items():
-            mod = types.ModuleType(modname)
-            sys.modules[modname] = mod
-            created.append(modname)
-            tree = ast.parse(src)
-            for st in tree.body:
-                code = compile(ast.Module([st], []), modname, 'exec')
-                try:
-                    exec(code, mod.__dict__)
-                except Exception as e:  # noqa: BLE001
-                    if isinstance(st, ast.ClassDef):
-                        failed[f'{modname}.{st.name}'] = f'{type(e).__name__}: {e}'
-                    else:
-                        # an import of a class CPython refused to create: from here on the names of this module are not
-                        # bound as written (a rebinding import may leave an older binding in place)
-                        failed.setdefault(f'{modname}.<import-failed>', str(st.lineno))
-                    continue
-                if isinstance(st, ast.ClassDef):
-                    classes[f'{modname}.{st.name}'] = mod.__dict__[st.name]
+        for modname in (entry or list(mods)):
+            importlib.import_module(modname)
     except BaseException:
-        for m in created:
+        for m in mods:
             sys.modules.pop(m, None)
         raise
+    finally:
+        sys.meta_path.remove(loader)
     return classes, failed
 
 
 # ------------------------------------------------------------------------------------------------
 
-def _judge(res: core.Res, mods: Dict[str, str], label: str, final: Optional[Dict[str, str]] = None) -> None:
+def _judge(res: core.Res, mods: Dict[str, str], label: str, final: Optional[Dict[str, str]] = None, entry: Optional[List[str]] = None) -> None:
     from pydoctor import model
     from pydoctor.templatewriter import util
     from pydoctor.templatewriter import pages
     from pydoctor import epydoc2stan
     from vf.mon import msgs
-    classes, failed = _cpython(mods)
+    classes, failed = _cpython(mods, entry)
     try:
         _judge2(res, mods, label, classes, failed, final or {})
     finally:
@@ -289,6 +327,7 @@ def _judge2(res: core.Res, mods: Dict[str, str], label: str, classes: Dict[str, 
     from pydoctor import epydoc2stan
     from vf.mon import msgs
     from pydoctor.stanutils import flatten
+    from twisted.web.template import tags, slot
     system = model.System()
     system.options.verbosity = -10
     b = system.systemBuilder(system)
@@ -439,6 +478,27 @@ def _judge2(res: core.Res, mods: Dict[str, str], label: str, classes: Dict[str, 
                 tgot.append((via[0].fullName(), names_))
         if texp != tgot:
             res.v('C05:member-table-differs', f'{full}: inherited tables {tgot}, run-time definers {texp} ({label})', cls=full, **w)
+        # the "Inherited from" tables of the class page itself (a sample, and every class without members of its own)
+        own_any = any(m in cls.__dict__ for m in MEMBERS)
+        if not own_any or zlib.crc32(f'{label}/{full}'.encode()) % 5 == 0:
+            try:
+                page = pages.ClassPage(obj, _lookup())
+                clones = page.baseTables(None, tags.div(slot('baseName'), '|', slot('baseTable')))
+                pgot = []
+                for cl in clones:
+                    head, _, table = flatten(cl).partition('|')
+                    hrefs = re.findall(r'href="([^"#]+)\.html#(\w+)"', table)
+                    via = re.findall(r'href="([^"#]+)\.html"', head)
+                    names_ = sorted({mname for _, mname in hrefs if mname in MEMBERS})
+                    if names_:
+                        pgot.append((via[0] if via else '?', names_, sorted({d for d, _ in hrefs})))
+            except Exception as e:  # noqa: BLE001
+                res.v(f'C05:class-page-tables-raise:{type(e).__name__}', f'{full}: rendering the inherited tables raised {e!r} ({label})', cls=full, **w)
+            else:
+                res.c('page_tables_compared')
+                pexp = [(d, ns, [d]) for d, ns in texp if d != F(full)]
+                if pgot != pexp:
+                    res.v('C05:class-page-inherited-tables-differ', f'{full}: the class page has inherited tables {pgot}, run-time definers {pexp} ({label})', cls=full, **w)
     res.c('evaluations')
 
 
@@ -534,6 +594,21 @@ def run_case(case: Dict[str, Any]) -> core.Res:
             _judge(res, mods, f"RE:{case['seed']}:{case['k'] + j}", final)
             res.c('reexported_classes', len(final))
         res.sample({'reexported': {k: v[-400:] for k, v in mods.items()}})
+        return res
+    if case['part'] == 'RC':
+        for j in range(case['n']):
+            mods = _gen_random(case['seed'], case['k'] + j, cyclic=True)
+            r = core.rng('C05', 'RC', case['seed'], case['k'] + j)
+            names = list(mods)
+            # Python enters at the module of the first class (what its author would import first); pydoctor is given the modules in two
+            # other orders: the same sources, the same hierarchy
+            first = next((m for m, src in mods.items() if 'class K0' in src), names[0])
+            entry = [first] + [m for m in names if m != first]
+            for o in range(2):
+                order = list(names)
+                r.shuffle(order)
+                _judge(res, {m: mods[m] for m in order}, f"RC:{case['seed']}:{case['k'] + j}/o{o}", None, entry)
+        res.sample({'cyclic': {k: v[:400] for k, v in mods.items()}})
         return res
     if case['part'] == 'X':
         for idx in case['idx']:
